@@ -702,3 +702,53 @@ reg(P("C08", "calls", "c08",
                                    "retkind": (event or {}).get("kind")},
       mutate=_c08_mutate, design_ref="DESIGN.md §6 C08",
       technique="TLC trace validation of real remote calls against the RpcCall monitor (lookup, exactly-once invocation, argument and result equality by SameValue)"))
+
+
+def _calls_sig(reset, event):
+    ev = event or {}
+    return {"kind": reset.get("kind"), "sc": reset.get("sc"), "ev": ev.get("ev"), "what": ev.get("what", ev.get("where", "")),
+            "retkind": ev.get("kind", ""), "detail": _re.sub(r"[0-9]+", "#", str(ev.get("detail", "")))[:60]}
+
+
+def _calls_mutate(field, value):
+    def m(rec):
+        if rec.get("ev") == field[0] and field[1] in rec:
+            rec[field[1]] = value
+            return rec
+        return None
+    return m
+
+
+_CALLS_ASSUME = ["every case runs in a child process; a child that dies is the observation 'crash'",
+                 "servers and scripted peers run on ephemeral ports on the loopback interface",
+                 "payloads are identified by length and a 48-bit SHA-1 prefix"]
+reg(P("C12", "calls", "c12",
+      mc={"quick": [], "thorough": []}, traces=[("", "CallsTrace", "CallsTrace.cfg")], level="model_checking",
+      rule="cases = transports x {honest traffic: request lengths around header sizes, 255/256, 4 KiB, 65 491..65 537, 1 MiB +- 1 "
+           "(up to the transport's limit) x {zeros, header-looking bytes, random}; crafted request frames from a raw socket "
+           "after another client left a recognisable payload: declared length larger / much larger / smaller / zero, short "
+           "frame, bad checksum and every single-bit flip of the 64/96 header bits; crafted response frames from a scripted "
+           "peer to a real client}; every case is non-trivial",
+      assumptions=_CALLS_ASSUME, sig_fn=_calls_sig, mutate=_calls_mutate(("handled", "h"), "000000000000"),
+      design_ref="DESIGN.md §6 C12",
+      technique="TLC trace validation of recorded deliveries against the Framing monitor (ExactOrNothing)"))
+reg(P("C13", "calls", "c13",
+      mc={"quick": [], "thorough": []}, traces=[("", "CallsTrace", "CallsTrace.cfg")], level="model_checking",
+      rule="cases = transports x limits {8, 1000} (thorough: 5, 8, 1000, 65499) x body sizes limit-1, limit, limit+1, 5*limit+3 "
+           "x declaration {truthful (honest client), absent (HTTP chunked), smaller than actual (HTTP Content-Length, raw "
+           "socket / UDP frame), truthful raw frame}; every case is non-trivial",
+      assumptions=_CALLS_ASSUME, sig_fn=_calls_sig, mutate=_calls_mutate(("ret", "kind"), "error"),
+      design_ref="DESIGN.md §6 C13",
+      technique="TLC trace validation of recorded requests against the MaxLen monitor"))
+reg(P("C11", "calls", "c11",
+      mc={"quick": [], "thorough": []}, traces=[("", "CallsTrace", "CallsTrace.cfg")], level="fault_enumeration",
+      rule="faults = {function panic with string / error / nil dereference / custom value, invoke-plugin panic, IO-plugin "
+           "panic, missing-method handler panic, mismatched arguments, undecodable and garbage requests, request above "
+           "MaxRequestLength, request and response beyond what the transport can carry, crafted request frames (short, "
+           "bad checksum, lying length, bit flips), crafted responses to a real client (short / empty message, garbage "
+           "header, malformed / wrong-type / empty body, error frame, negative count)} x transports x worker pool on/off; "
+           "after every fault a sentinel call on the same client and on another client; distinct = (transport, scenario)",
+      assumptions=_CALLS_ASSUME + ["closing the one connection a malformed frame arrived on is allowed"],
+      sig_fn=_calls_sig, mutate=_calls_mutate(("sentinel", "ok"), False),
+      design_ref="DESIGN.md §6 C11",
+      technique="fault enumeration in child processes; TLC trace validation against the Containment monitor"))
